@@ -789,8 +789,14 @@ class MultiStream(Stream):
                     else: # The excluded (phase, IDs) block is not in the source's phase; everything was copied
                         other_data[:] = 0.
         elif multiphase:
-            data[phase_index, IDs_index] = other_data[phase_index, IDs_index]
-            if remove: other_data[phase_index, IDs_index] = 0.
+            # Rows are matched by phase, not by position (the streams may have different phases)
+            get_phase_index = self.imol.get_phase_index
+            get_other_phase_index = other.imol.get_phase_index
+            phases = other.phases if phase is ... else [phase]
+            index = [(get_phase_index(i), get_other_phase_index(i)) for i in phases]
+            for i, j in index:
+                data[i, IDs_index] = other_data[j, IDs_index]
+                if remove: other_data[j, IDs_index] = 0.
         else:
             data[:] = 0.
             other_phase_index = self.imol.get_phase_index(other.phase)
